@@ -107,9 +107,16 @@ DecStr(b, p) ==
   ELSE IF ~Has(b, n.p, n.v) THEN Fail
   ELSE LET s == SubSeq(b, n.p, n.p + n.v - 1) IN IF Utf8OK(s) THEN Ok(s, n.p + n.v) ELSE Fail
 
-RECURSIVE DecStrs(_, _, _, _)
-DecStrs(b, p, n, acc) == IF n = 0 THEN Ok(acc, p) ELSE
-  LET r == DecStr(b, p) IN IF ~r.ok THEN Fail ELSE DecStrs(b, r.p, n - 1, Append(acc, r.v))
+\* (long vectors are decoded in blocks of 64, see DecEntries)
+RECURSIVE DecStrsB(_, _, _, _)
+DecStrsB(b, p, n, acc) == IF n = 0 THEN Ok(acc, p) ELSE
+  LET r == DecStr(b, p) IN IF ~r.ok THEN Fail ELSE DecStrsB(b, r.p, n - 1, Append(acc, r.v))
+RECURSIVE DecStrsC(_, _, _, _)
+DecStrsC(b, p, n, accs) ==
+  IF n = 0 THEN Ok(FlattenSeq(accs), p) ELSE
+  LET k == IF n < 64 THEN n ELSE 64  blk == DecStrsB(b, p, k, <<>>) IN
+  IF ~blk.ok THEN Fail ELSE DecStrsC(b, blk.p, n - k, Append(accs, blk.v))
+DecStrs(b, p, n, acc) == DecStrsC(b, p, n, <<>>)
 DecVecStr(b, p) == LET n == DecLen(b, p) IN IF ~n.ok THEN Fail ELSE DecStrs(b, n.p, n.v, <<>>)
 
 DecOptStr(b, p) ==
@@ -144,9 +151,15 @@ RECURSIVE DecVariants(_, _, _, _)
 DecVariants(b, p, n, acc) == IF n = 0 THEN Ok(acc, p) ELSE
   LET r == DecVariant(b, p) IN IF ~r.ok THEN Fail ELSE DecVariants(b, r.p, n - 1, Append(acc, r.v))
 
-RECURSIVE DecIds(_, _, _, _)
-DecIds(b, p, n, acc) == IF n = 0 THEN Ok(acc, p) ELSE
-  LET r == DecCompact(b, p) IN IF ~r.ok THEN Fail ELSE DecIds(b, r.p, n - 1, Append(acc, r.v))
+RECURSIVE DecIdsB(_, _, _, _)
+DecIdsB(b, p, n, acc) == IF n = 0 THEN Ok(acc, p) ELSE
+  LET r == DecCompact(b, p) IN IF ~r.ok THEN Fail ELSE DecIdsB(b, r.p, n - 1, Append(acc, r.v))
+RECURSIVE DecIdsC(_, _, _, _)
+DecIdsC(b, p, n, accs) ==
+  IF n = 0 THEN Ok(FlattenSeq(accs), p) ELSE
+  LET k == IF n < 64 THEN n ELSE 64  blk == DecIdsB(b, p, k, <<>>) IN
+  IF ~blk.ok THEN Fail ELSE DecIdsC(b, blk.p, n - k, Append(accs, blk.v))
+DecIds(b, p, n, acc) == DecIdsC(b, p, n, <<>>)
 
 DecParam(b, p) ==
   LET a == DecStr(b, p) IN IF ~a.ok THEN Fail ELSE
@@ -181,9 +194,18 @@ DecEntry(b, p) ==
   LET d == DecDef(b, ps.p) IN IF ~d.ok THEN Fail ELSE
   LET dc == DecVecStr(b, d.p) IN IF ~dc.ok THEN Fail ELSE
   Ok([id |-> i.v, path |-> pa.v, params |-> ps.v, def |-> d.v, docs |-> dc.v], dc.p)
-RECURSIVE DecEntries(_, _, _, _)
-DecEntries(b, p, n, acc) == IF n = 0 THEN Ok(acc, p) ELSE
-  LET r == DecEntry(b, p) IN IF ~r.ok THEN Fail ELSE DecEntries(b, r.p, n - 1, Append(acc, r.v))
+\* Entries are decoded in blocks of 64 (two-level recursion): TLC's cost per step grows with the depth of the
+\* recursion it is in, so one recursion of depth 16 384 took hours where depth 256 + 64 takes minutes.
+RECURSIVE DecBlock(_, _, _, _)
+DecBlock(b, p, k, acc) == IF k = 0 THEN Ok(acc, p) ELSE
+  LET r == DecEntry(b, p) IN IF ~r.ok THEN Fail ELSE DecBlock(b, r.p, k - 1, Append(acc, r.v))
+RECURSIVE DecEntriesC(_, _, _, _)
+DecEntriesC(b, p, n, accs) ==
+  IF n = 0 THEN Ok(FlattenSeq(accs), p) ELSE
+  LET k == IF n < 64 THEN n ELSE 64
+      blk == DecBlock(b, p, k, <<>>) IN
+  IF ~blk.ok THEN Fail ELSE DecEntriesC(b, blk.p, n - k, Append(accs, blk.v))
+DecEntries(b, p, n, acc) == DecEntriesC(b, p, n, <<>>)
 
 \* result: [ok |-> TRUE, v |-> registry, p |-> 1 + number of bytes consumed] or [ok |-> FALSE]
 DecReg(b) == LET n == DecLen(b, 1) IN IF ~n.ok THEN Fail ELSE DecEntries(b, n.p, n.v, <<>>)
